@@ -422,6 +422,17 @@ func parseDSAPrivateKey(der []byte) (Info, error) {
 	}, nil
 }
 
+// opensshCipherAuthLen is the length of the authentication tag that OpenSSH writes after
+// the encrypted private key block: 16 octets for the AEAD ciphers, nothing for the others
+// (openssh cipher.c).
+func opensshCipherAuthLen(cipher string) int {
+	switch cipher {
+	case "aes128-gcm@openssh.com", "aes256-gcm@openssh.com", "chacha20-poly1305@openssh.com":
+		return 16
+	}
+	return 0
+}
+
 func parseOpenSSHPrivateKey(der []byte) (Info, error) {
 	const magic = "openssh-key-v1\x00"
 	if len(der) < len(magic) || string(der[:len(magic)]) != magic {
@@ -440,10 +451,16 @@ func parseOpenSSHPrivateKey(der []byte) (Info, error) {
 		NumKeys      uint32
 		PubKey       []byte
 		PrivKeyBlock []byte
+		// The authentication tag of an AEAD cipher follows the encrypted block; it is
+		// not part of the length-prefixed string (sshkey.c sshkey_private_to_blob2).
+		Tag []byte `ssh:"rest"`
 	}
 
 	if err := ssh.Unmarshal(remaining, &w); err != nil {
 		return info, err
+	}
+	if len(w.Tag) != opensshCipherAuthLen(w.CipherName) {
+		return info, errors.New("ssh: unexpected data after the private key block")
 	}
 	if w.NumKeys != 1 {
 		// We only support single key files, and so does OpenSSH.
